@@ -364,6 +364,21 @@ def check_c12(tier, seed):
                 got = do(p, kind_, q)
                 if got != fresh[(kind_, q)]:
                     fails.append({"clause": "history-independent", "detail": f"after {list(hist)}, {kind_}(`{q}`) gives {str(got)[:120]}; a fresh parser gives {str(fresh[(kind_, q)])[:120]}"})
+    # long histories of failing parses (unclosed groups, dangling operators), with and without cache clearing
+    for clear in (False, True):
+        p = ExpressionParser()
+        for k in range(40):
+            for bad in ("((((x + ", "(" * 30 + f"x{k}", f"sgn(({k}", f"{k} * (", "$"):
+                do(p, "parse", bad)
+            if clear and k % 7 == 0:
+                do(p, "clear", None)
+        for q in universe + ["(a + 1)", "2 * (b + (c + 3))", "sgn(d)", "(" * 20 + "e" + ")" * 20, "f^(g + 1)"]:
+            for kind_ in ("parse", "tokenize"):
+                cases += 1
+                got = do(p, kind_, q)
+                want = do(ExpressionParser(), kind_, q)
+                if got != want:
+                    fails.append({"clause": "history-independent", "detail": f"after 200 failing parses{' and cache clearing' if clear else ''}, {kind_}(`{q}`) gives {str(got)[:100]}; a fresh parser gives {str(want)[:100]}"})
     # token lists handed out are independent copies
     for q in universe:
         p = ExpressionParser()
